@@ -19,6 +19,7 @@ import (
 	stdx509 "crypto/x509"
 	"encoding/pem"
 	"fmt"
+	"github.com/google/trillian"
 	"os"
 	"path/filepath"
 	"strings"
@@ -173,6 +174,7 @@ func (c *checker) live(t *testing.T) {
 	// a CA certificate as the first element (accept_only_ca); its NotAfter is pki.T1, far after the bubble's clock
 	leaves = append(leaves, lv{I1, []*node{R1}})
 	c.liveTwoPools(t, rootsFile, keyAny, dir)
+	c.pathHistories()
 	cfgs := liveConfigs(r.Thorough())
 	r.Set("live_instance_configurations", len(cfgs))
 	done := enum.ParFor(len(cfgs), r.Expired, func(i int) {
@@ -340,4 +342,56 @@ func (c *checker) liveTwoPools(t *testing.T, rootsFile string, keyAny *anypb.Any
 			}
 		}
 	}
+}
+
+// pathHistories: one instance sees several chains in a row, among them chains that share their
+// first certificates and differ further up (an issuing CA under a root and under that root's
+// cross-certificate, a re-issued root, a longer path). Every admitted chain is handed on with its
+// OWN path, whatever the instance handed on before.
+func (c *checker) pathHistories() {
+	r := c.r
+	want := map[string]bool{"one-int": true, "cross-root": true, "reissued-root": true, "two-int": true, "direct": true, "preissuer": true}
+	var bs []base
+	for _, b := range c.w.bases {
+		if want[b.name] && (b.kind == kCert || b.kind == kPre) {
+			bs = append(bs, b)
+		}
+	}
+	ws, es := windows(false), expiries(false)
+	off := optSpec{win: ws[0], exp: es[0], rejN: "none"}
+	n := len(bs)
+	enum.ParFor(n*n, r.Expired, func(i int) {
+		a, b := bs[i/n], bs[i%n]
+		if i/n == i%n {
+			return
+		}
+		vopts, rej := instantiate(off, leafNA, c.pool)
+		be := reflog.New(1)
+		f := c.frontEnd(be, vopts, rej)
+		for step, x := range []base{a, b, a} {
+			r.Eval(1)
+			var raws, wantPath [][]byte
+			for k, nd := range x.path {
+				wantPath = append(wantPath, nd.DER)
+				if k < len(x.path)-1 {
+					raws = append(raws, nd.DER) // the pool root is not sent
+				}
+			}
+			pre := x.kind == kPre
+			q0 := len(be.CallsOf("QueueLeaf"))
+			rsp, _ := f.AddChain(pre, raws)
+			q := be.CallsOf("QueueLeaf")
+			desc := map[string]any{"history": []string{a.name + "/" + a.kind, b.name + "/" + b.kind, a.name + "/" + a.kind}, "step": step, "submitted": c.pathLabels(raws), "expected_path": c.pathLabels(wantPath)}
+			if rsp.Status != 200 || len(q) != q0+1 {
+				r.Violation("path history: a valid chain is refused or not handed on after other chains were admitted", fmt.Sprintf("step %d of [%s, %s, %s]: HTTP %d %s", step, a.name, b.name, a.name, rsp.Status, strings.TrimSpace(string(rsp.Body))), desc)
+				return
+			}
+			gp, bad := queuedPath(q[len(q)-1].Req.(*trillian.QueueLeafRequest).Leaf, pre)
+			r.Nontrivial(fmt.Sprintf("path-history|%s/%s|%s/%s|%d", a.name, a.kind, b.name, b.kind, step))
+			if bad != "" || !eqPath(gp, wantPath) {
+				desc["handed_on"] = c.pathLabels(gp) + " " + bad
+				r.Violation("path history: the path handed on is not the submitted chain's own path", fmt.Sprintf("step %d of [%s/%s, %s/%s, %s/%s] on one instance: handed on [%s] %s, expected [%s]", step, a.name, a.kind, b.name, b.kind, a.name, a.kind, c.pathLabels(gp), bad, c.pathLabels(wantPath)), desc)
+			}
+		}
+	})
 }
